@@ -43,7 +43,7 @@ def main():
         "hooks": {
             "guard": "CARES_VERIF_HOOKS",
             "enable": "-DCARES_VERIF_HOOKS passed by /verif/tools/vlib.py when it compiles /repo/src/lib/**/*.c for the harnesses",
-            "baseline_off_cmd": "cmake --build /repo/_build && ctest --test-dir /repo/_build -j8 --timeout 900",
+            "baseline_off_cmd": "python3 /verif/tools/baseline.py",
             "source_commits": hooks_commit,
             "add_only": True,
         },
